@@ -66,33 +66,89 @@ fn key_history(model: &Model, h: usize, cfg: &Cfg, now: u64, key: &[u8], q: &His
     out
 }
 
-/// Sort runs of equal (key, ts) so that tie order does not matter.
-fn normalise(v: &mut [HEntry]) {
-    let mut i = 0;
-    while i < v.len() {
-        let mut j = i + 1;
-        while j < v.len() && v[j].key == v[i].key && v[j].ts == v[i].ts {
-            j += 1;
-        }
-        v[i..j].sort();
-        i = j;
-    }
-}
-
+/// Match `got` against the expected sequence. Versions of one key with EQUAL timestamps form a tie group: the
+/// statement does not say which of them must be listed or in which order (the B+tree back-end keys versions by
+/// (key, timestamp)), so a group is satisfied by any non-empty subset of its members in any order; a group is
+/// required iff one of its members is.
 fn is_subsequence_containing(got: &[HEntry], all: &[(HEntry, bool)]) -> Result<(), String> {
     let mut gi = 0;
-    for (e, req) in all {
-        if gi < got.len() && got[gi] == *e {
-            gi += 1;
-        } else if *req {
+    let mut i = 0;
+    while i < all.len() {
+        let mut j = i + 1;
+        while j < all.len() && all[j].0.key == all[i].0.key && all[j].0.ts == all[i].0.ts {
+            j += 1;
+        }
+        let group = &all[i..j];
+        let mut used = vec![false; group.len()];
+        let mut consumed = 0;
+        while gi < got.len() {
+            let pos = group.iter().enumerate().position(|(n, e)| !used[n] && e.0 == got[gi]);
+            match pos {
+                Some(n) => {
+                    used[n] = true;
+                    consumed += 1;
+                    gi += 1;
+                }
+                None => break,
+            }
+        }
+        if consumed == 0 && group.iter().any(|e| e.1) {
+            let e = &group[0].0;
             return Err(format!("required version {}@{} missing or out of order", key_str(&e.key), e.ts));
         }
+        i = j;
     }
     if gi < got.len() {
         let e = &got[gi];
         return Err(format!("unexpected entry {}@{} (tomb={}) not in the model's retained history at this position", key_str(&e.key), e.ts, e.tomb));
     }
     Ok(())
+}
+
+/// What the history would be if the timestamp filter were applied BEFORE the barrier rules (the behaviour recorded as
+/// known finding F10); used only to label a mismatch.
+fn filter_before_barrier(model: &Model, h: usize, q: &HistQuery) -> Vec<HEntry> {
+    let mut per_key: Vec<Vec<HEntry>> = Vec::new();
+    for k in model.all_keys() {
+        if k.as_slice() < q.lo.as_slice() || k.as_slice() >= q.hi.as_slice() {
+            continue;
+        }
+        let all = model.writes_of(h, &k);
+        let in_range: Vec<&Version> = all.iter().rev().filter(|v| q.ts_range.map(|(a, b)| v.ts >= a && v.ts <= b).unwrap_or(true)).collect();
+        let mut out = Vec::new();
+        if in_range.first().map(|v| matches!(v.op, Op::Delete)).unwrap_or(false) {
+            continue;
+        }
+        for v in in_range {
+            match v.op {
+                Op::Delete => break,
+                Op::Replace(_) => {
+                    out.push(HEntry { key: k.clone(), ts: v.ts, tomb: false, val: v.op.value().map(|x| x.bytes()).unwrap_or_default() });
+                    break;
+                }
+                Op::SoftDelete => {
+                    if q.tombstones {
+                        out.push(HEntry { key: k.clone(), ts: v.ts, tomb: true, val: Vec::new() });
+                    }
+                }
+                Op::Set(x) => out.push(HEntry { key: k.clone(), ts: v.ts, tomb: false, val: x.bytes() }),
+            }
+        }
+        if !out.is_empty() {
+            per_key.push(out);
+        }
+    }
+    let mut res = Vec::new();
+    if q.rev {
+        for kh in per_key.iter().rev() {
+            res.extend(kh.iter().rev().cloned());
+        }
+    } else {
+        for kh in per_key {
+            res.extend(kh);
+        }
+    }
+    res
 }
 
 pub fn read_history(txn: &Transaction, q: &HistQuery) -> Result<Vec<HEntry>, String> {
@@ -128,8 +184,28 @@ pub fn read_history(txn: &Transaction, q: &HistQuery) -> Result<Vec<HEntry>, Str
     Ok(got)
 }
 
+fn has_ties(model: &Model, key: &[u8]) -> bool {
+    let all = model.writes_of(model.len(), key);
+    all.iter().enumerate().any(|(i, a)| all[i + 1..].iter().any(|b| b.ts == a.ts))
+}
+
+/// With the version index on, a write whose timestamp equals that of an earlier version of the same key replaces
+/// that version in the index (known finding F25); failures of cases where that happened are labelled.
+fn tag_tie_index(cfg: &Cfg, tie: bool, r: Result<(), (String, String)>) -> Result<(), (String, String)> {
+    match r {
+        Err((c, m)) if cfg.vindex && tie && c != "read-error-harness" => Err((format!("tie-index/{c}"), m)),
+        other => other,
+    }
+}
+
 pub fn check_history(model: &Model, h: usize, cfg: &Cfg, now: u64, txn: &Transaction, q: &HistQuery, stats: &mut Stats) -> Result<(), (String, String)> {
-    let mut got = read_history(txn, q).map_err(|m| ("read-error".to_string(), m))?;
+    let tie = cfg.vindex && model.all_keys().iter().any(|k| k.as_slice() >= q.lo.as_slice() && k.as_slice() < q.hi.as_slice() && has_ties(model, k));
+    let r = check_history_inner(model, h, cfg, now, txn, q, stats);
+    tag_tie_index(cfg, tie, r)
+}
+
+fn check_history_inner(model: &Model, h: usize, cfg: &Cfg, now: u64, txn: &Transaction, q: &HistQuery, stats: &mut Stats) -> Result<(), (String, String)> {
+    let got = read_history(txn, q).map_err(|m| ("read-error".to_string(), m))?;
     // expected, forward order: key asc, newest first
     let mut exp: Vec<(HEntry, bool)> = Vec::new();
     let mut per_key: Vec<Vec<(HEntry, bool)>> = Vec::new();
@@ -154,12 +230,7 @@ pub fn check_history(model: &Model, h: usize, cfg: &Cfg, now: u64, txn: &Transac
             exp.extend(kh.iter().cloned());
         }
     }
-    normalise(&mut got);
-    let mut exp_entries: Vec<HEntry> = exp.iter().map(|e| e.0.clone()).collect();
-    normalise(&mut exp_entries);
-    for (i, e) in exp_entries.iter().enumerate() {
-        exp[i].0 = e.clone();
-    }
+    let exp_entries: Vec<HEntry> = exp.iter().map(|e| e.0.clone()).collect();
     let ctx = format!(
         "history lo={} hi={} tombstones={} ts_range={:?} limit={:?} rev={}",
         key_str(&q.lo),
@@ -183,13 +254,24 @@ pub fn check_history(model: &Model, h: usize, cfg: &Cfg, now: u64, txn: &Transac
     match q.limit {
         None => {
             if let Err(why) = is_subsequence_containing(&got, &exp) {
-                return Err((class_of(&got, &exp_entries), format!("{ctx}: {why}; got {} expected {}", fmt_entries(&got), fmt_entries(&exp_entries))));
+                let mut class = class_of(&got, &exp_entries);
+                if q.ts_range.is_some() && got == filter_before_barrier(model, h, q) {
+                    // known finding F10: the timestamp filter runs before the barrier logic, so a barrier outside the
+                    // range does not erase the versions below it
+                    class = "history-tsrange-excludes-barrier".into();
+                }
+                return Err((class, format!("{ctx}: {why}; got {} expected {}", fmt_entries(&got), fmt_entries(&exp_entries))));
             }
         }
         Some(l) => {
             // Two readings of `limit` are documented (entries vs unique keys); without retention the forward
             // traversal must be a prefix of the unlimited one that is complete under one of them.
             if cfg.retention == 0 {
+                let has_ties = exp_entries.windows(2).any(|w| w[0].key == w[1].key && w[0].ts == w[1].ts);
+                if has_ties {
+                    stats.inc("history_limit_skipped_ties");
+                    return Ok(());
+                }
                 let is_prefix = got.len() <= exp_entries.len() && got[..] == exp_entries[..got.len()];
                 if !q.rev {
                     let by_entries = exp_entries.len().min(l);
@@ -207,8 +289,10 @@ pub fn check_history(model: &Model, h: usize, cfg: &Cfg, now: u64, txn: &Transac
                         by_keys += 1;
                     }
                     if !(is_prefix && (got.len() == by_entries || got.len() == by_keys)) {
+                        let alt = if q.ts_range.is_some() { filter_before_barrier(model, h, q) } else { Vec::new() };
+                        let f10 = q.ts_range.is_some() && alt != exp_entries && got.len() <= alt.len() && got[..] == alt[..got.len()];
                         return Err((
-                            "history-limit".into(),
+                            if f10 { "history-tsrange-excludes-barrier".to_string() } else { "history-limit".to_string() },
                             format!("{ctx}: limited forward traversal is not a complete prefix of the unlimited one; got {} unlimited {}", fmt_entries(&got), fmt_entries(&exp_entries)),
                         ));
                     }
@@ -217,8 +301,11 @@ pub fn check_history(model: &Model, h: usize, cfg: &Cfg, now: u64, txn: &Transac
                     if got.len() > l.max(0) && l > 0 || is_subsequence_containing(&got, &all).is_err() {
                         // `limit` = 0 is treated as "nothing" by the entries reading; accept empty only
                         if !(l == 0 && got.is_empty()) {
+                            let alt = if q.ts_range.is_some() { filter_before_barrier(model, h, q) } else { Vec::new() };
+                            let alt_pairs: Vec<(HEntry, bool)> = alt.iter().map(|e| (e.clone(), false)).collect();
+                            let f10 = q.ts_range.is_some() && alt != exp_entries && is_subsequence_containing(&got, &alt_pairs).is_ok();
                             return Err((
-                                "history-limit".into(),
+                                if f10 { "history-tsrange-excludes-barrier".to_string() } else { "history-limit".to_string() },
                                 format!("{ctx}: limited backward traversal is not a sub-sequence of the unlimited one with <= limit entries; got {} unlimited {}", fmt_entries(&got), fmt_entries(&exp_entries)),
                             ));
                         }
@@ -235,6 +322,12 @@ pub fn check_history(model: &Model, h: usize, cfg: &Cfg, now: u64, txn: &Transac
 }
 
 pub fn check_get_at(model: &Model, h: usize, cfg: &Cfg, now: u64, txn: &Transaction, key: &[u8], t: u64, stats: &mut Stats) -> Result<(), (String, String)> {
+    let tie = cfg.vindex && has_ties(model, key);
+    let r = check_get_at_inner(model, h, cfg, now, txn, key, t, stats);
+    tag_tie_index(cfg, tie, r)
+}
+
+fn check_get_at_inner(model: &Model, h: usize, cfg: &Cfg, now: u64, txn: &Transaction, key: &[u8], t: u64, stats: &mut Stats) -> Result<(), (String, String)> {
     let got = txn.get_at(key, t).map_err(|e| ("read-error".to_string(), format!("get_at({}, {t}) failed: {e:?}", key_str(key))))?;
     let all = model.writes_of(h, key);
     let newest_ord = all.last().map(|v| v.ord);
